@@ -175,6 +175,31 @@ def decode_sites(body):
     return out
 
 
+def all_decode_sites(facts):
+    """(body, site) for every Metadata header decode in the crate (any body: a shared helper
+    counts once, however many readers call it)."""
+    out = []
+    for name in sorted(facts.bodies):
+        b = facts.bodies[name]
+        if b.j.get("derived"):
+            continue
+        for s in decode_sites(b):
+            out.append((b, s))
+    return out
+
+
+def consumers_reach_decode(facts, consumers):
+    """For each consumer body name: does it contain, or reach through the crate's call graph, a
+    header decode site?  The non-vacuity floor of the decoder rules."""
+    have = {b.name for b, s in all_decode_sites(facts)}
+    res = {}
+    for fn in consumers:
+        b = facts.body(fn)
+        reach = facts.closure_reach(b.name) | {b.name}
+        res[fn] = bool(reach & have)
+    return res
+
+
 def decoder_features(body, site):
     """Features of one header decode: where the length bytes come from, how the metadata
     range is cut and which bounds dominate it."""
@@ -218,6 +243,27 @@ def decoder_features(body, site):
             if la is not None and lb is not None and la[0] == lb[0]:
                 lo, hi = 0, lb[1] - la[1]
                 base = (a_[1], la)
+    # L = u16::from_le_bytes([buf[i], buf[i+1]]) (as usize): the same little-endian pair
+    Lc = L
+    while isinstance(Lc, tuple) and Lc and Lc[0] == "cast":
+        Lc = strip_refs(Lc[-1]) if isinstance(Lc[-1], tuple) else Lc
+        break
+    if lo is None and _is_call(Lc, "from_le_bytes") and Lc[2]:
+        arr = strip_refs(Lc[2][0])
+        elems = None
+        if isinstance(arr, tuple) and arr and arr[0] == "array":
+            elems = arr[1]
+        elif isinstance(arr, tuple) and arr and arr[0] == "agg":
+            elems = arr[3] if len(arr) > 3 else None
+            if isinstance(elems, dict):
+                elems = [elems[k] for k in sorted(elems)]
+        if isinstance(elems, list) and len(elems) == 2:
+            a_, b_ = strip_refs(elems[0]), strip_refs(elems[1])
+            if a_[0] == "idx" and b_[0] == "idx":
+                la, lb = linear(a_[2]), linear(b_[2])
+                if la is not None and lb is not None and la[0] == lb[0]:
+                    lo, hi, shift = 0, lb[1] - la[1], 8
+                    base = (a_[1], la)
     f["len_bytes"] = {"lo": lo, "hi": hi, "shift": shift}
     f["_base"] = base
     # extend_from_slice source range relative to the base index
